@@ -1187,7 +1187,7 @@ impl<T: TraceStorage> ChainProcess<T> {
                         draw as u64,
                     );
                     let now = Instant::now();
-                    let (_point, mut draw_data, mut stats, info) = sampler.expanded_draw().unwrap();
+                    let (_point, mut draw_data, mut stats, info) = sampler.expanded_draw()?;
                     #[cfg(nuts_rs_verif)]
                     crate::verif::sched(
                         crate::verif::sched_point::CHAIN_AFTER_DRAW,
